@@ -735,6 +735,42 @@ func (env *SpecEnv) evalCall(x *SCall) Val {
 			val = in.strLit("")
 		}
 		return Sc{val}
+	case "as":
+		// as(T, x): x, an interface value or pointer, viewed as a T record: the pointee when x holds a
+		// pointer, an arbitrary T otherwise (e.g. the nil result of an error path, where the clause
+		// is guarded anyway)
+		argn(2)
+		tn := specString(x.Args[0])
+		t := in.W.lookupType(env.pkgPath, tn)
+		if t == nil {
+			env.fail("as: unknown type %s", tn)
+		}
+		switch v := env.eval(x.Args[1]).(type) {
+		case PtrV:
+			return in.load(env.st, v.To, env.f)
+		default:
+			return in.freshVal("as_"+sanitize(tn), t, env.f)
+		}
+	case "bigval":
+		// bigval(p): the mathematical value of a *big.Int
+		argn(1)
+		v := env.eval(x.Args[0])
+		if p, ok := v.(PtrV); ok {
+			v = in.load(env.st, p.To, env.f)
+		}
+		sc, ok := v.(Sc)
+		if !ok || sc.T.Sort != SInt {
+			env.fail("bigval() of %T", v)
+		}
+		return sc
+	case "bebytes":
+		// bebytes(b): big-endian unsigned value of a byte sequence of constant length (<= 64)
+		argn(1)
+		arr, off, ln := env.bytesView(env.eval(x.Args[0]))
+		if !ln.IsLit() || ln.lit.Int64() > 64 {
+			env.fail("bebytes: length must be a constant <= 64")
+		}
+		return Sc{be(arr, off, int(ln.lit.Int64()))}
 	case "cat":
 		argn(2)
 		return Sc{App("sconcat", SStr, env.asStr(env.eval(x.Args[0])), env.asStr(env.eval(x.Args[1])))}
